@@ -127,7 +127,11 @@ func (e *Engine) invokeValue(st *State, g *G, fr *Frame, callee Value, args []Va
 				return e.finishCall(st, g, fr, in, nil)
 			case "opaque-string":
 				// formatting of (possibly symbolic) values for messages: the text is never inspected
-				return e.finishCall(st, g, fr, in, "<"+f.Name()+">")
+				parts := make([]Value, len(args))
+				for i, a := range args {
+					parts[i] = e.snapshot(st, a, 6)
+				}
+				return e.finishCall(st, g, fr, in, SymStr{kind: "String:" + f.String(), parts: parts})
 			}
 			return e.abort(st, "unknown stub kind "+kind), false
 		}
@@ -806,4 +810,54 @@ func scalarType(t types.Type) bool {
 		return scalarType(u.Elem())
 	}
 	return false
+}
+
+// snapshot returns a pointer-free deep copy of v (pointers are followed up to depth levels), used as the
+// ingredient of symbolic strings.
+func (e *Engine) snapshot(st *State, v Value, depth int) Value {
+	switch x := v.(type) {
+	case Ptr:
+		if x.obj == 0 || depth == 0 {
+			return "<nil>"
+		}
+		o, ok := st.heap[x.obj]
+		if !ok {
+			return "<dangling>"
+		}
+		switch o.v.(type) {
+		case *MapModel, *ChanModel, *MapIter:
+			return fmt.Sprintf("<obj%d>", x.obj)
+		}
+		return e.snapshot(st, st.load(x), depth-1)
+	case StructV:
+		out := make(StructV, len(x))
+		for i := range x {
+			out[i] = e.snapshot(st, x[i], depth)
+		}
+		return out
+	case SliceV:
+		if x.n == 0 {
+			return StructV{}
+		}
+		arr := st.arrOf(x)[x.off : x.off+x.n]
+		out := make(StructV, len(arr))
+		for i := range arr {
+			out[i] = e.snapshot(st, arr[i], depth)
+		}
+		return out
+	case IfaceV:
+		if x.t == nil {
+			return "<nil>"
+		}
+		return e.snapshot(st, x.v, depth)
+	case TupleV:
+		out := make(StructV, len(x))
+		for i := range x {
+			out[i] = e.snapshot(st, x[i], depth)
+		}
+		return out
+	case SymStr:
+		return x
+	}
+	return v
 }
